@@ -28,10 +28,37 @@ def hostile_text_schema():
     s.types.append(S.Type("CB", "char", presence="constant", const="\\"))
     s.types.append(S.Type("CS", "char", presence="constant", const='a"b\\c'))
     s.messages[1].description = 'msg "descr"'
+    # `??x` sequences are trigraphs under -std=c++11/14: `??/` would become a backslash in front of the closing quote
+    s.types.append(S.Type("TG", "uint8", description='what??/', semantic_type="??=??(??)", char_encoding="??'"))
+    s.types.append(S.Enum("ETG", "char", [S.EnumValue("qm", "?")], description="??/"))
+    s.types.append(S.Type("CTG", "char", presence="constant", const="a??/"))
+    s.types.append(S.Type("CQM", "char", presence="constant", const="?"))
+    s.messages[1].fields.append(S.Field("tg", 903, "TG", description="??/"))
+    s.messages[1].fields.append(S.Field("etg", 904, "ETG"))
+    s.messages[1].fields.append(S.Field("ctg", 905, "CTG"))
     s.messages[1].fields.append(S.Field("q", 900, "Q", description="field 'd' \"e\""))
     s.messages[1].fields.append(S.Field("eq", 901, "EQ"))
     s.messages[1].fields.append(S.Field("cs", 902, "CS"))
     s.messages[1].block_length = None
+    return s
+
+
+def oddities_schema():
+    """Valid but unusual constructs: a char constant longer than its one-character value (the type is an array, so the value
+    has to be generated as a padded string), enums whose validValues share a value (enumerators may alias, `case` labels may
+    not), numeric and char flavours."""
+    s = S.corpus_layout("odd")
+    s.name = "oddities"
+    s.types.append(S.Type("C1pad", "char", presence="constant", length=3, const="A"))
+    s.types.append(S.Type("C1pad8", "char", presence="constant", length=8, const="z"))
+    s.types.append(S.Enum("EDUP", "uint8", [S.EnumValue("A", "1"), S.EnumValue("B", "1"), S.EnumValue("C", "01"), S.EnumValue("D", "2")]))
+    s.types.append(S.Enum("EDUPS", "int16", [S.EnumValue("Z", "0"), S.EnumValue("NZ", "-0"), S.EnumValue("ZZ", "000"), S.EnumValue("M", "-1")]))
+    s.types.append(S.Enum("EDUPC", "char", [S.EnumValue("X", "x"), S.EnumValue("Y", "x"), S.EnumValue("W", "w")]))
+    s.types.append(S.Composite("OddC", [S.Type("k3", "char", presence="constant", length=3, const="Q"), S.Type("v", "uint8")]))
+    m = s.messages[1]
+    m.fields += [S.Field("c1pad", 910, "C1pad"), S.Field("c1pad8", 911, "C1pad8"), S.Field("edup", 912, "EDUP"),
+                 S.Field("edups", 913, "EDUPS"), S.Field("edupc", 914, "EDUPC"), S.Field("oddc", 915, "OddC")]
+    m.block_length = None
     return s
 
 
@@ -40,7 +67,11 @@ def float_literal_schema():
     s.name = "float_literals"
     for i, (p, mn, mx) in enumerate([("float", "1", "16777216"), ("float", "-3", "16777217"), ("double", "0", "9007199254740993"),
                                      ("float", "1e10", "3.4028235e38"), ("double", "-1.7976931348623157e308", "1e308"),
-                                     ("float", "0.1", "0.3"), ("float", "-INF", "INF"), ("double", "-0.0", "+INF")]):
+                                     ("float", "0.1", "0.3"), ("float", "-INF", "INF"), ("double", "-0.0", "+INF"),
+                                     # integers beyond the 64-bit literals of C++
+                                     ("double", "-9223372036854775808", "100000000000000000000"),
+                                     ("float", "-18446744073709551616", "18446744073709551615"),
+                                     ("double", "9223372036854775808", "340282366920938463463374607431768211456")]):
         s.types.append(S.Type("F%d" % i, p, min=mn, max=mx))
         s.types.append(S.Type("FO%d" % i, p, presence="optional", min=mn, max=mx, null="NaN"))
     return s
@@ -61,6 +92,32 @@ def libnames_schema():
     fields += [S.Field("holder", 100, "Holder"), S.Field("e", 101, "data"), S.Field("s", 102, "empty"), S.Field("a", 103, "front")]
     grp = S.Group("resize", 200, fields=[S.Field(n, 300 + i, "uint8") for i, n in enumerate(names)])
     return S.Schema("libnames", types=types, messages=[S.Message("M", 1, fields=fields, groups=[grp])], name="libnames")
+
+
+GROUP_BASE_MEMBERS = ["value_type", "reference", "sbe_size_type", "size_type", "difference_type", "iterator", "sbe_size", "size",
+                      "resize", "empty", "max_size", "begin", "end", "front", "back", "clear", "cursor_range_t", "cursor_range",
+                      "cursor_subrange", "cursor_iterator", "cursor_begin", "cursor_end"]
+
+
+def group_libnames_schemas():
+    """Groups named like the public members a group view inherits from sbepp's group base classes (size, begin, resize,
+    value_type, ...), as a flat group and as a group with a nested group: a class named like an inherited member hides it,
+    and the container interface of that group (g.size(), range-for, G::value_type) is what the three TUs instantiate.
+    Several schemas so that one failure does not mask the others."""
+    out = []
+    for k in range(0, len(GROUP_BASE_MEMBERS), 6):
+        names = GROUP_BASE_MEMBERS[k:k + 6]
+        types = [S.std_header(), S.std_dimension(), S.std_vardata()]
+        msgs = []
+        for i, n in enumerate(names):
+            flat = S.Group(n, 10, fields=[S.Field("a", 11, "uint8")])
+            nest = S.Group(n, 20, fields=[S.Field("a", 21, "uint8")],
+                           groups=[S.Group("inner", 22, fields=[S.Field("b", 23, "uint16")])])
+            msgs.append(S.Message("F%d" % i, 2 * i + 1, fields=[S.Field("x", 2, "uint32")], groups=[flat]))
+            msgs.append(S.Message("N%d" % i, 2 * i + 2, groups=[nest]))
+        nm = "grpnames%d" % (k // 6)
+        out.append(S.Schema(nm, types=types, messages=msgs, name=nm))
+    return out
 
 
 def sole_dependency_schema():
@@ -184,8 +241,9 @@ def main():
     rep = Report("C07", "exploration")
     quick = rep.tier == "quick"
     schemas = S.corpus() + S.random_schemas(rep.seed, 3 if quick else 60) + S.clash_schemas(rep.seed, 6 if quick else 60)
-    schemas += [hostile_text_schema(), float_literal_schema(),
-                libnames_schema(), sole_dependency_schema(), path_concat_schema()] + S.pair_clash_schemas()
+    schemas += [hostile_text_schema(), float_literal_schema(), oddities_schema(),
+                libnames_schema(), sole_dependency_schema(), path_concat_schema()] + group_libnames_schemas() + \
+        S.pair_clash_schemas()
     sparse = S.pair_clash_schemas(sparse=True)
     if quick:
         # sibling and nested group pairs always; a seeded sample of the other positions
@@ -202,7 +260,8 @@ def main():
         hdr_cfgs_sampled = []
         tu_cfgs = [build.Cfg(c, s, "O0") for c, s in build.all_compiler_std()]
     rep.rule("schemas: covering corpus (6), seeded random (%d), clash-pool names (%d), hostile text, float literal forms, "
-             "library-member names, a sole-dependency schema (every type used from exactly one construct, so every #include "
+             "library-member names (types, enum values, choices, composite members; and 4 schemas whose groups are named like every "
+             "public member a group view inherits: size, begin, resize, value_type, ...), a sole-dependency schema (every type used from exactly one construct, so every #include "
              "must come from it: field types at depth 0-2, data and dimension types, enums reached only through valueRef, refs in "
              "composites, case-differing references), a path-concatenation schema (group paths whose `_`-joined names collide), "
              "7 systematic pair-clash schemas (every ordered pair of {X, X_entry, X_0, X_0_entry, X_1, entry, "
@@ -212,7 +271,9 @@ def main():
              "and 30 sampled others in quick, "
              "all 273 in thorough; message header, top-level header and touch TU compiled), and three special-purpose raw "
              "schemas; per accepted schema every generated header is "
-             "compiled alone (-fsyntax-only) and the touch-everything TU is compiled, under the configurations listed. An "
+             "compiled alone (-fsyntax-only) and the touch-everything TU is compiled, under the configurations listed; "
+             "for all but the pair schemas the cursor-protocol interpreter (every member x every cursor wrapper, ranges) "
+             "and the operation driver (every container operation and derived view) are compiled as two further TUs. An "
              "evaluation is one compiler run; distinct_nontrivial = distinct (schema, header or TU, configuration) compiled."
              % ((3 if quick else 60), (6 if quick else 60)))
     preps = []
@@ -265,6 +326,27 @@ def main():
     for p in preps:
         for cfg in (tu_cfgs[:1] if p.schema.name.startswith("ps_") else tu_cfgs):
             jobs.append(("tu", p.schema.name, p.xml, p.gen, p, cfg))
+    # two more instantiate-everything TUs per schema (added after seeded change C04-4 produced a cursor accessor that only
+    # fails to compile when it is called through a dont_move/skip wrapper): the cursor-protocol interpreter of C04 (every
+    # member x every cursor wrapper x get/set, ranges and subranges) and the operation driver of C10 (every array, <data>
+    # and group container operation, raw(), iterator forms, by-tag and cursor forms)
+    from .. import gen_cur as GCUR, gen_ops as GOPS
+
+    class Extra:
+        pass
+    for p in preps:
+        if p.schema.name.startswith("ps_"):
+            continue
+        for label, G in (("cursor-protocol-TU", GCUR.CurGen), ("operations-TU", GOPS.OpsGen)):
+            try:
+                x = Extra()
+                x.src, x.label = G(p.schema).generate(), label
+            except Exception as e:  # the generators of other checks are not written for every special-purpose schema
+                rep.count("extra_tus_not_generated")
+                rep.cov.setdefault("extra_tu_generator_gaps", []).append([p.schema.name, label, repr(e)[:120]])
+                continue
+            for cfg in tu_cfgs:
+                jobs.append(("xtu", p.schema.name, p.xml, p.gen, x, cfg))
 
     def run(job):
         kind, name, xml, gen, what, cfg = job
@@ -278,7 +360,7 @@ def main():
     entities = 0
     for (kind, name, xml, gen, what, cfg), ok, out in C.pmap(run, jobs):
         rep.evaluation()
-        label = what if kind == "hdr" else "touch-everything-TU"
+        label = what if kind == "hdr" else "touch-everything-TU" if kind == "tu" else what.label
         rep.nontrivial(name, label, str(cfg))
         rep.count("headers_compiled" if kind == "hdr" else "tus_compiled")
         if ok:
@@ -288,7 +370,7 @@ def main():
         rep.violation("compile-error", "%s/%s" % (construct, site),
                       "%s: %s does not compile under %s: %s" % (name, label, cfg, first[:400]),
                       {"schema": name, "schema_xml": xml, "unit": label, "config": str(cfg), "compiler_output": out[:6000],
-                       "driver_source_excerpt": (what.src[:3000] if kind == "tu" else None)})
+                       "driver_source_excerpt": (what.src[:3000] if kind != "hdr" else None)})
     for p in preps:
         entities += p.src.count("l.") + p.src.count("c.")
     rep.cov["entities_named_in_tus"] = entities
